@@ -620,6 +620,89 @@ def parse_balance_report(text, title="BALANCE"):
 
 
 # ---------------------------------------------------------------------------------------------
+# register report
+
+_REG_HDR = None
+
+
+def parse_register_report(text, title="REGISTER"):
+    """-> list of entries {ts, code, desc, uuid, rows [(acct, amount, total, comm)]} from
+    RegisterReporter text (no price conversion columns), or None when the title is missing.
+    `ts` is the printed timestamp text (report zone); `code`/`desc`/`uuid` are None when not printed.
+    Only the part after the title line is read."""
+    global _REG_HDR
+    import re
+    if _REG_HDR is None:
+        _REG_HDR = re.compile(r"^(\d{4,}-\d{2}-\d{2}(?: \d{2}:\d{2}:\d{2}(?:\.\d+)?)?)(?: \(([^)]*)\))?(?: '(.*))?$")
+    lines = text.split("\n")
+    try:
+        i = lines.index(title)
+    except ValueError:
+        return None
+    j = i + 2
+    entries = []
+    cur = None
+    indent = " " * 12
+    while j < len(lines):
+        ln = lines[j]
+        j += 1
+        if cur is None:
+            if ln == "":
+                continue
+            m = _REG_HDR.match(ln)
+            if not m:
+                entries.append({"ts": None, "code": None, "desc": None, "uuid": None, "rows": [], "garbled": ln})
+                continue
+            cur = {"ts": m.group(1), "code": m.group(2), "desc": m.group(3), "uuid": None, "rows": []}
+            continue
+        if ln.startswith(indent + "# uuid: "):
+            cur["uuid"] = ln[len(indent) + 8:]
+        elif ln.startswith(indent + "# ") or ln.startswith(indent + "; ") or ln == indent + ";":
+            pass
+        elif ln.startswith(indent):
+            tok = ln.split()
+            if len(tok) == 3:
+                cur["rows"].append((tok[0], tok[1], tok[2], ""))
+            elif len(tok) == 4:
+                cur["rows"].append((tok[0], tok[1], tok[2], tok[3]))
+            else:
+                cur["rows"].append(("?", ln, "?", "?"))
+        elif (ln and set(ln) == {"-"}) or (ln == "" and not cur["rows"]):
+            # an entry ends with a rule as wide as its widest row (an entry without rows: an empty line)
+            entries.append(cur)
+            cur = None
+        else:
+            cur["garbled"] = ln
+    if cur is not None:
+        cur["garbled"] = "unterminated entry"
+        entries.append(cur)
+    return entries
+
+
+def register_ts_ns(ts_text):
+    """the instant (ns since the epoch) a printed register timestamp denotes in UTC"""
+    date, _, rest = ts_text.partition(" ")
+    y, mo, d = [int(x) for x in date.split("-")]
+    h = mi = s = frac = 0
+    if rest:
+        hms, _, f = rest.partition(".")
+        h, mi, s = [int(x) for x in hms.split(":")]
+        if f:
+            frac = int(f.ljust(9, "0")[:9])
+    return civil_to_ns(y, mo, d, h, mi, s, frac, 0)
+
+
+def floor_ns(ns, style):
+    """what a timestamp style keeps of an instant shown in UTC"""
+    ns = int(ns)
+    if style == "date":
+        return ns - ns % (86400 * 10 ** 9)
+    if style == "seconds":
+        return ns - ns % (10 ** 9)
+    return ns
+
+
+# ---------------------------------------------------------------------------------------------
 # misc
 
 def case_hash(case):
